@@ -44,6 +44,7 @@ def _solve(order, qed, pol, xg, init, target):
     c["interpolation_polynomial_degree"] = DEG
     c["n_integration_cores"] = 1
     c["polarized"] = pol
+    runner.cheap_sibling(th, op)
     with runner.scratch() as root:
         eko.solve(runcards.TheoryCard.from_dict(th), runcards.OperatorCard.from_dict(op), root / "o.tar")
         with EKO.read(root / "o.tar") as e:
